@@ -560,6 +560,13 @@ def run(prog, tier):
     lock_rule(prog, res)
     binding_rule(prog, res, contract)
     name_adder_dispatch_rule(prog, res)
+    # "a frame that matches the declared names is accepted": names are compared as stored - every way of naming a point /
+    # channel trims alike (C11 trimmed-name), and the look-up the label guard relies on is a first-exact-match search
+    import p_c11
+    t11 = p_c11.run(prog, 'quick')
+    for o in t11.obs:
+        if o['rule'] == 'trimmed-name' or (o['rule'] == 'index-by-name' and ('pointIdx' in o.get('function', '') or 'channelIdx' in o.get('function', ''))):
+            res.obs.append(dict(o, rule='name-match/' + o['rule']))
     # a positional look-up inside the guard prefix that the guards before it do not cover throws std::out_of_range
     # instead of the documented class (or refuses a valid call)
     import indexsites
